@@ -186,4 +186,95 @@ def holds (o : Obs) : Bool := (clauses o).all (·.2)
 
 end Src
 
+/-! ## identity.json (suite `ident`, round 8)
+
+From the property text: a load (or environment pass) that is accepted leaves an Identity that validates, holds
+exactly the ID and key it was given, saves them, and a fresh Identity loading the saved file is accepted with the
+same ID and key; nothing crashes. -/
+namespace Ident
+
+structure Obs where
+  ops : List String      -- L:<id>:<key> Lf:<id>:<key> G E:<id>:<key>
+  res : List String      -- ok | err | panic per operation
+  sid : String           -- index of the key pair the ID belongs to, "-" unset, "?" foreign
+  skey : String
+  valid : Bool
+  saved : String         -- i<n>:k<n> tokens of ToJSON, "-" (no key: not savable)
+  perm : String
+  rres : String
+  rid : String
+  rkey : String
+  deriving Repr
+
+def tokIndex (t : String) : String := (t.drop 1).toString
+
+def given (op : String) : Option (String × String) :=
+  match op.splitOn ":" with
+  | [_, i, k] => some (i, k)
+  | _ => none
+
+def clauses (o : Obs) : List (String × Bool) :=
+  let accepted := o.res.getLast? == some "ok"
+  [ ("no_crash", !(o.res.contains "panic") && !(o.saved.endsWith "panic") && o.rres != "panic"),
+    ("accepted_valid", !accepted || o.valid),
+    ("preserved", !accepted || (match (o.ops.getLast?).bind given with
+        | some (i, k) => (i == "-" || o.sid == tokIndex i) && (k == "-" || o.skey == tokIndex k)
+        | none => true)),
+    ("roundtrip", !accepted || (o.saved == "i" ++ o.sid ++ ":k" ++ o.skey && o.rres == "ok" && o.rid == o.sid && o.rkey == o.skey)) ]
+
+def holds (o : Obs) : Bool := (clauses o).all (·.2)
+
+/-- restapi's libp2p identity (case kind `rlib`): tokens given, result, state, saved tokens, reload -/
+def rlibClauses (idT keyT res sid skey : String) (valid : Bool) (saved rres : String) : List (String × Bool) :=
+  let ok := res == "ok"
+  [ ("no_crash", res != "panic" && saved != "panic" && rres != "panic"),
+    ("accepted_valid", !ok || valid),
+    ("preserved", !ok || ((idT == "-" || sid == tokIndex idT) && (keyT == "-" || skey == tokIndex keyT))),
+    ("roundtrip", !ok || (saved == (if sid == "-" then "-" else "i" ++ sid) ++ ":" ++ (if skey == "-" then "-" else "k" ++ skey) && rres == "ok")) ]
+
+end Ident
+
+/-! ## DisplayJSON on arbitrary struct types (case kind `disp`, round 8)
+
+"The displayable form never contains the secret": a leaf whose top-level field is tagged `hidden:"true"` (the
+contract `config.DisplayJSON` documents) must be shown as the mask and its value must not occur anywhere in the
+displayed text.  Tags below the top level are outside the contract (see `Disp.nested_hidden_leaks`). -/
+namespace Disp
+
+structure LeafObs where
+  path : List (String × Bool)   -- JSON name, tagged hidden
+  obs : String                  -- s | m | a | x, with a trailing ! when the raw value occurs in the text
+  deriving Repr
+
+def LeafObs.topHidden (l : LeafObs) : Bool :=
+  match l.path with
+  | [] => false
+  | s :: _ => s.2
+
+def clauses (res : String) (ls : List LeafObs) : List (String × Bool) :=
+  [ ("no_crash", res != "panic"),
+    ("no_secret_leak", ls.all fun l => !l.topHidden || l.obs == "m" || res != "ok") ]
+
+end Disp
+
+/-! ## config.SetIfNotDefault / config.ParseDurations driven directly (case kinds `sind`, `pdur`, round 8)
+
+"No well-formed setting is silently dropped (a numeric or duration zero conventionally means 'use the default')":
+a non-zero source of a type the function supports must arrive in the destination; a parsable duration must arrive,
+an empty one keeps the current value, an unparsable one is refused with an error. -/
+namespace Util
+
+def sindClauses (guard : String) (z : Bool) (src out : String) : List (String × Bool) :=
+  [ ("no_crash", out != "panic"),
+    ("preserved", guard == "none" || z || out == src) ]
+
+/-- `args`: e (empty) | b (unparsable) | o<ns>; per argument the current and the resulting value -/
+def pdurClauses (args : List String) (cur out : List String) (res : String) : List (String × Bool) :=
+  let rows := (args.zip (cur.zip out))
+  [ ("no_crash", res != "panic"),
+    ("refused_invalid", !(args.contains "b") || res == "err"),
+    ("preserved", res != "ok" || rows.all (fun (a, c, o) => if a == "e" then o == c else if a.startsWith "o" then o == (a.drop 1).toString else true)) ]
+
+end Util
+
 end CV.C15
